@@ -43,7 +43,7 @@ fn err_short(e: &CIError) -> String {
     }
 }
 
-pub trait Fl: num_traits::Float + FloatEnc + std::fmt::Debug + 'static {
+pub trait Fl: num_traits::Float + FloatEnc + std::fmt::Debug + Send + Sync + 'static {
     fn hex(self) -> String;
 }
 impl Fl for f64 {
@@ -349,6 +349,19 @@ fn exec_program<F: Fl + SerdeBound>(case: &Value, skip_roundtrip: bool) -> Vec<V
         let out: Value = match catch_unwind(AssertUnwindSafe(|| -> Value {
             match a {
                 "new" => { regs[r] = Reg::new(fl); books[r] = (vec![], vec![]); json!({"tag": "ok"}) }
+                "par_reduce" => {
+                    // a real parallel reduction: partial states built and merged by rayon's scheduler
+                    use rayon::prelude::*;
+                    let chunks: Vec<Vec<i64>> = act["chunks"].as_array().unwrap().iter().map(ints).collect();
+                    let fls = fl.to_string();
+                    let reduced = chunks
+                        .par_iter()
+                        .map(|c| Reg::<F>::batch(&fls, c, &[]))
+                        .reduce(|| Reg::<F>::new(&fls), |a, b| a.add(b));
+                    regs[r] = reduced;
+                    books[r] = (chunks.concat(), vec![]);
+                    json!({"tag": "ok"})
+                }
                 "roundtrip" => {
                     if skip_roundtrip {
                         json!({"tag": "ok", "skipped": true})
